@@ -65,6 +65,8 @@ def obligations(ctx, tier):
                 other = "from_le_slice" if sl == "from_be_slice" else "from_be_slice"
                 reps.append(("r256_bytes", lambda W: {0: B_([1, 2, 3]), 1: PI("u32", 256)}, expect(("ret_call", sl, other))))
                 out += core.g_row(K, PROP, inh(A, m), reps)
+            # ---- sign handling / error-kind mapping of the string parsers around the parser core
+            out += sign_rows(K, A)
             # ---- trait forwarding
             out.append(core.f_row(K, PROP, tr(A, "core::str::FromStr", [], "from_str"), call(inh(A, "from_str_radix"), P(0), lit("u32", 10))))
             # ---- panic effects
@@ -109,3 +111,111 @@ def digit_table_rows(K, A):
         exp = ("val", PI("u8", w)) if w is not None else ("pred", lambda v: isinstance(v, PI) and v.v >= 36)
         reps.append(("byte_%02x" % b, (lambda b=b: lambda W: {0: PI("u8", b)})(), expect(exp)))
     return core.g_row(K, PROP, fid, reps, inst=inst, cparams={"FROM_STR": True})
+
+
+def sign_rows(K, A):
+    """from_str_radix / parse_bytes / FromStr on sign, boundary and invalid-character representatives; the parser core
+    (from_buf_radix_internal) is trusted by contract, the wrappers around it are analysed."""
+    sg = is_signed(A)
+    out = []
+
+    def texts(W, radix):
+        lo, hi = arith.rng(W, A)
+
+        def num(v):
+            neg = v < 0
+            v = abs(v)
+            digs = "0123456789abcdefghijklmnopqrstuvwxyz"
+            s_ = ""
+            while True:
+                s_ = digs[v % radix] + s_
+                v //= radix
+                if v == 0:
+                    break
+            return ("-" if neg else "") + s_
+        t = ["0", "-0", "+0", "7", "-7", "+7", "007", "+007", "-007", num(hi), "+" + num(hi), num(hi + 1), "000" + num(hi),
+             "-", "+", "1x", "-x", "x1", "1 ", " 1", "1-", "--1", "+-1", "1_0", "\x121"]
+        if sg:
+            t += [num(lo), num(lo - 1), "-000" + num(-lo), num(lo + 1)]
+        else:
+            t += ["-1", "-" + num(hi)]
+        if radix == 36:
+            t += ["z", "Z", "zz", "-z"]
+        if radix == 8:
+            t += ["8", "78"]
+        if radix == 16:
+            t += ["ff", "FF", "fg", "0x1"]
+        return t
+
+    def reference(W, text, radix):
+        """Rust's iN/uN::from_str_radix"""
+        lo, hi = arith.rng(W, A)
+        if text == "":
+            return ("err", "Empty")
+        body = text
+        neg = False
+        if text[0] == "+":
+            body = text[1:]
+        elif text[0] == "-" and sg:
+            body = text[1:]
+            neg = True
+        if body == "":
+            return ("err", "InvalidDigit")
+        v = 0
+        for ch in body:
+            if "0" <= ch <= "9":
+                d = ord(ch) - 48
+            elif "a" <= ch <= "z":
+                d = ord(ch) - 87
+            elif "A" <= ch <= "Z":
+                d = ord(ch) - 55
+            else:
+                d = 99
+            if d >= radix:
+                return ("err", "InvalidDigit")
+            v = v * radix + d
+        if neg:
+            v = -v
+        if v > hi:
+            return ("err", "PosOverflow")
+        if v < lo:
+            return ("err", "NegOverflow")
+        return ("ok", v)
+
+    for radix in (10, 16, 2, 36, 8):
+        reps_s, reps_b = [], []
+        for j in range(40):
+            def env_s(W, j=j, radix=radix):
+                tx = texts(W, radix)
+                return {0: S_(tx[j % len(tx)]), 1: PI("u32", radix)}
+
+            def env_b(W, j=j, radix=radix):
+                tx = texts(W, radix)
+                return {0: B_(tx[j % len(tx)].encode()), 1: PI("u32", radix)}
+
+            def exp_s(W, env, radix=radix):
+                text = bytes(d.v for d in env[0][1]).decode()
+                r = reference(W, text, radix)
+                return ("okv", W.wrap(A, r[1])) if r[0] == "ok" else ("err_kind", r[1])
+
+            def exp_b(W, env, radix=radix):
+                text = bytes(d.v for d in env[0][1]).decode()
+                r = reference(W, text, radix)
+                return ("some", W.wrap(A, r[1])) if r[0] == "ok" else ("none",)
+            reps_s.append(("r%d_t%d" % (radix, j), env_s, exp_s))
+            reps_b.append(("r%d_t%d" % (radix, j), env_b, exp_b))
+        out += core.g_row(K, PROP, inh(A, "from_str_radix"), reps_s, tag="sign")
+        out += core.g_row(K, PROP, inh(A, "parse_bytes"), reps_b, tag="sign")
+    reps_f = []
+    for j in range(40):
+        def env_f(W, j=j):
+            tx = texts(W, 10)
+            return {0: S_(tx[j % len(tx)])}
+
+        def exp_f(W, env):
+            text = bytes(d.v for d in env[0][1]).decode()
+            r = reference(W, text, 10)
+            return ("okv", W.wrap(A, r[1])) if r[0] == "ok" else ("err_kind", r[1])
+        reps_f.append(("t%d" % j, env_f, exp_f))
+    out += core.g_row(K, PROP, tr(A, "core::str::FromStr", [], "from_str"), reps_f, tag="sign")
+    return out
